@@ -204,7 +204,7 @@ for _p in ("C07", "C08", "C11"):
 # Documents as bytes (Properties/LexerDoc.v): the lexer model on the serialisation `ser` of a byte-level
 # document tree is `events_of` of its abstraction, so the DOM-level theorems of C03 (exactness) and
 # C11 (structure only; replacing attribute values / text) are theorems from bytes to the inferred tree
-for _p in ("C03", "C11"):
+for _p in ("C01", "C03", "C06", "C09", "C11"):
     _s = PROPS[_p]
     _s["prop_files"] = _s.get("prop_files", [_p]) + ["LexerDoc"]
 for _p in ("C01", "C03", "C04", "C05", "C06", "C07", "C08", "C09", "C10", "C11", "C14"):
